@@ -499,6 +499,115 @@ func vmAstWrites(repo string) ([]astWrite, error) {
 	return out, nil
 }
 
+// ---- static: package-level state written while scripts run ----
+// pkgStateWrites lists, for one package of the repository, the writes to package-level variables that happen
+// outside package initialisation: assignments, ++/--, stores through an index or field of such a variable,
+// and mutating method calls on package-level sync.Map / sync.Pool / atomic values.
+func pkgStateWrites(repo, rel string) ([]string, error) {
+	fset := token.NewFileSet()
+	dir := filepath.Join(repo, rel)
+	pkgs, err := parser.ParseDir(fset, dir, func(fi os.FileInfo) bool {
+		return !strings.HasSuffix(fi.Name(), "_test.go") && !strings.Contains(fi.Name(), "NotGo112")
+	}, 0)
+	if err != nil {
+		return nil, err
+	}
+	var files []*ast.File
+	for _, p := range pkgs {
+		if strings.HasSuffix(p.Name, "_test") {
+			continue
+		}
+		for _, f := range p.Files {
+			files = append(files, f)
+		}
+	}
+	sort.Slice(files, func(i, j int) bool { return fset.Position(files[i].Pos()).Filename < fset.Position(files[j].Pos()).Filename })
+	info := &types.Info{Types: map[ast.Expr]types.TypeAndValue{}, Defs: map[*ast.Ident]types.Object{}, Uses: map[*ast.Ident]types.Object{}}
+	conf := types.Config{Importer: importer.ForCompiler(fset, "source", nil), Error: func(error) {}}
+	pkg, _ := conf.Check("github.com/mattn/anko/"+rel, fset, files, info)
+	if pkg == nil {
+		return nil, fmt.Errorf("type check of %s failed", rel)
+	}
+	isPkgVar := func(o types.Object) bool {
+		v, ok := o.(*types.Var)
+		return ok && !v.IsField() && v.Parent() == pkg.Scope()
+	}
+	root := func(e ast.Expr) types.Object {
+		for {
+			switch x := e.(type) {
+			case *ast.SelectorExpr:
+				if id, ok := x.X.(*ast.Ident); ok {
+					if _, isPkg := info.Uses[id].(*types.PkgName); isPkg {
+						return nil // a variable of another package
+					}
+				}
+				e = x.X
+			case *ast.IndexExpr:
+				e = x.X
+			case *ast.StarExpr:
+				e = x.X
+			case *ast.ParenExpr:
+				e = x.X
+			case *ast.Ident:
+				if o := info.Uses[x]; o != nil {
+					return o
+				}
+				return info.Defs[x]
+			default:
+				return nil
+			}
+		}
+	}
+	var out []string
+	for _, f := range files {
+		for _, d := range f.Decls {
+			fd, ok := d.(*ast.FuncDecl)
+			if !ok || fd.Body == nil || (fd.Recv == nil && fd.Name.Name == "init") {
+				continue
+			}
+			note := func(e ast.Expr, what string) {
+				if o := root(e); o != nil && isPkgVar(o) {
+					out = append(out, fmt.Sprintf("%s: %s %s %s", rel, fd.Name.Name, what, o.Name()))
+				}
+			}
+			ast.Inspect(fd.Body, func(n ast.Node) bool {
+				switch s := n.(type) {
+				case *ast.AssignStmt:
+					if s.Tok == token.DEFINE {
+						return true
+					}
+					for _, lhs := range s.Lhs {
+						note(lhs, "assigns")
+					}
+				case *ast.IncDecStmt:
+					note(s.X, "incdec")
+				case *ast.CallExpr:
+					if sel, ok := s.Fun.(*ast.SelectorExpr); ok {
+						if tv, ok := info.Types[sel.X]; ok && tv.Type != nil {
+							ts := tv.Type.String()
+							if strings.HasPrefix(strings.TrimPrefix(ts, "*"), "sync.") || strings.HasPrefix(strings.TrimPrefix(ts, "*"), "sync/atomic.") {
+								switch sel.Sel.Name {
+								case "Store", "LoadOrStore", "LoadAndDelete", "Delete", "Swap", "CompareAndSwap", "Add", "Put", "Range", "Do":
+									note(sel.X, "calls "+sel.Sel.Name+" on")
+								}
+							}
+						}
+					}
+				}
+				return true
+			})
+		}
+	}
+	sort.Strings(out)
+	var uniq []string
+	for i, w := range out {
+		if i == 0 || w != out[i-1] {
+			uniq = append(uniq, w)
+		}
+	}
+	return uniq, nil
+}
+
 func c14Main(seed uint64, n int, outDir, repo string) error {
 	rnd := NewRand(seed, "c14")
 	var results []*c14Result
@@ -555,6 +664,19 @@ func c14Main(seed uint64, n int, outDir, repo string) error {
 		items = append(items, coqStr(strings.ReplaceAll(w, repo, "")))
 	}
 	sb.WriteString("Definition non_fresh_ast_writes : list string := " + coqList(items) + ".\n")
+	var stateWrites []string
+	for _, rel := range []string{"vm", "parser", "core", "env", "ast", "ast/astutil"} {
+		ws, serr := pkgStateWrites(repo, rel)
+		if serr != nil {
+			ws = []string{rel + ": ANALYSIS FAILED " + serr.Error()}
+		}
+		stateWrites = append(stateWrites, ws...)
+	}
+	var sitems []string
+	for _, w := range stateWrites {
+		sitems = append(sitems, coqStr(w))
+	}
+	sb.WriteString("Definition package_state_writes : list string := " + coqList(sitems) + ".\n")
 	fmt.Fprintf(&sb, "Definition fresh_ast_writes_count : nat := %d.\n", len(writes)-len(nonFresh))
 	if err := os.WriteFile(filepath.Join(outDir, "AnkoGen", "GenAstWrites.v"), []byte(sb.String()), 0o644); err != nil {
 		return err
@@ -575,7 +697,7 @@ func c14Main(seed uint64, n int, outDir, repo string) error {
 	vproblems, vruns := c14Variants()
 	meta := map[string]interface{}{"programs": len(results), "parse_failures": parseFail, "distinct_nontrivial": len(distinct),
 		"isolation_problems": c14Isolation(), "ast_writes": writes, "non_fresh_ast_writes": nonFresh,
-		"variant_problems": vproblems, "variant_runs": vruns, "variant_programs": len(c14VariantPrograms)}
+		"variant_problems": vproblems, "variant_runs": vruns, "variant_programs": len(c14VariantPrograms), "package_state_writes": stateWrites}
 	if werr != nil {
 		meta["ast_writes_error"] = werr.Error()
 	}
